@@ -15,17 +15,17 @@ int main(void)
         double *a = f_arg;
         if (!strcmp(f_fn, "gen3"))
         {
-            a_trajpoly3 t; a_trajpoly3_gen(&t, a[0], a[1], a[2], a[3], a[4]);
+            a_trajpoly3 t; for (i = 0; i < 4; ++i) { t.c[i] = 777; } /* a context that was in use before */ a_trajpoly3_gen(&t, a[0], a[1], a[2], a[3], a[4]);
             for (i = 0; i < 4; ++i) { put(t.c[i]); }
         }
         else if (!strcmp(f_fn, "gen5"))
         {
-            a_trajpoly5 t; a_trajpoly5_gen(&t, a[0], a[1], a[2], a[3], a[4], a[5], a[6]);
+            a_trajpoly5 t; for (i = 0; i < 6; ++i) { t.c[i] = 777; } a_trajpoly5_gen(&t, a[0], a[1], a[2], a[3], a[4], a[5], a[6]);
             for (i = 0; i < 6; ++i) { put(t.c[i]); }
         }
         else if (!strcmp(f_fn, "gen7"))
         {
-            a_trajpoly7 t; a_trajpoly7_gen(&t, a[0], a[1], a[2], a[3], a[4], a[5], a[6], a[7], a[8]);
+            a_trajpoly7 t; for (i = 0; i < 8; ++i) { t.c[i] = 777; } a_trajpoly7_gen(&t, a[0], a[1], a[2], a[3], a[4], a[5], a[6], a[7], a[8]);
             for (i = 0; i < 8; ++i) { put(t.c[i]); }
         }
         else if (!strcmp(f_fn, "ev3"))
@@ -62,18 +62,20 @@ int main(void)
         else if (!strcmp(f_fn, "peval") || !strcmp(f_fn, "pevar"))
         { /* args: c[0..n-1] x ; guard cells around the coefficient array */
             int n = f_n - 1;
-            double *buf = (double *)malloc(sizeof(double) * (size_t)(n > 0 ? n : 1));
+            double *blk = (double *)malloc(sizeof(double) * (size_t)(n + 2)), *buf = blk + 1;
+            blk[0] = 12345; blk[n + 1] = 54321; /* cells that are not coefficients: a read outside the range shows in the value */
             for (i = 0; i < n; ++i) { buf[i] = a[i]; }
             put(f_fn[4] == 'l' ? a_poly_eval_(buf, buf + n, a[n]) : a_poly_evar_(buf, buf + n, a[n]));
-            free(buf);
+            free(blk);
         }
         else if (!strcmp(f_fn, "pevalw") || !strcmp(f_fn, "pevarw"))
         { /* the public wrappers, n may be 0 */
             int n = f_n - 1;
-            double *buf = (double *)malloc(sizeof(double) * (size_t)(n > 0 ? n : 1));
+            double *blk = (double *)malloc(sizeof(double) * (size_t)(n + 2)), *buf = blk + 1;
+            blk[0] = 12345; blk[n + 1] = 54321;
             for (i = 0; i < n; ++i) { buf[i] = a[i]; }
             put(f_fn[4] == 'l' ? a_poly_eval(buf, (a_size)n, a[n]) : a_poly_evar(buf, (a_size)n, a[n]));
-            free(buf);
+            free(blk);
         }
         else if (!strcmp(f_fn, "pswapw"))
         {
